@@ -819,7 +819,13 @@ func (x *sealedScn) libStore(sd *sealedSide, m proto.Message) error {
 		case *types.NodeCredentials:
 			err = v.Store(x.ctx, sd.store, sd.opts()...)
 		case *types.RootCertificates:
-			err = v.Store(x.ctx, sd.store, sd.opts()...)
+			if v.State != nil && x.sc.Variant%2 == 1 {
+				// the state also travels as an option of the call (what RotateRootCertificates' callers do)
+				x.r.Count("root_stores_with_state_option", 1)
+				err = v.Store(x.ctx, sd.store, sd.opts(nodeenrollment.WithState(v.State))...)
+			} else {
+				err = v.Store(x.ctx, sd.store, sd.opts()...)
+			}
 		case *types.ServerLedActivationToken:
 			err = v.Store(x.ctx, sd.store, sd.opts()...)
 		default:
@@ -1693,6 +1699,7 @@ func runSealed(c *engine.Ctx) engine.Result {
 	r.Require("transplant_controls_ok", 100)
 	r.Require("flow_step:rotate-node-credentials", 10)
 	r.Require("server_wrapper_key_rollovers", 10)
+	r.Require("root_stores_with_state_option", 3)
 	r.Require("flow_step:rotation-of-a-record-with-node-id", 4)
 	r.Require("flow_step:retain-previous-key", 5)
 	r.Require("flow_step:create-token", 30)
